@@ -4,6 +4,7 @@ import (
 	"bytes"
 	"fmt"
 	"iter"
+	"strings"
 	"testing"
 	"time"
 
@@ -88,54 +89,13 @@ func c09Prop(t *testing.T, r *hx.Run, sub string) func(c c09Case) hx.Verdict {
 			p.Plugin.SpinUs = map[string]int64{"open": 300, "upd": 300}
 			v.Class += "/busy"
 		}
-		var serr error
-		o := world.Run(t, func() {
-			w, err := world.New("10.0.0.1", nil)
-			if err != nil {
-				serr = err
-				return
-			}
-			defer w.Finish()
-			if c.Out {
-				w.Net.SetPlans(p.RemoteAddr(), memnet.DialPlan{Kind: memnet.Accept})
-			}
-			if err := w.AddPeer(p); err != nil {
-				serr = err
-				return
-			}
-			w.Serve()
-			w.Settle()
-			getConn := func(k int) *memnet.Conn {
-				if !c.Out {
-					cn := w.Inbound(p.Remote, "10.0.0.1")
-					w.Settle()
-					return cn
-				}
-				if !w.Net.WaitDials(k+1, 5*time.Second) {
-					return nil
-				}
-				w.Settle()
-				return w.Net.Dials()[k].Conn
-			}
-			for k, end := range c.Prev {
-				cn := getConn(k)
-				if cn == nil {
-					fail("setup", "no connection for earlier session %d", k)
-					return
-				}
-				world.Handshake(w, p, cn, 90, 0x0a000002)
-				if end == "cease" {
-					cn.RemoteSend(wire.Notif{Code: 6, Sub: 4}.Frame(), nil)
-					w.Settle()
-				}
-				cn.RemoteClose()
-				w.Settle()
-			}
-			conn := getConn(len(c.Prev))
-			if conn == nil {
-				fail("setup", "no connection for the session under test")
-				return
-			}
+		var prev []world.PrevSession
+		for _, e := range c.Prev {
+			// "in-cease" / "in-fin": with an outbound connection under test, the earlier session
+			// was an inbound one (the dials were refused meanwhile)
+			prev = append(prev, world.PrevSession{Hold: 90, End: strings.TrimPrefix(e, "in-"), In: strings.HasPrefix(e, "in-")})
+		}
+		o, serr := world.SinglePrev(t, "10.0.0.1", p, c.Out, nil, prev, func(w *world.World, conn *memnet.Conn) {
 			func() {
 				rhold := uint16(90)
 				if c.Hold0 {
@@ -380,7 +340,7 @@ func TestC09(t *testing.T) {
 		for _, st := range allStates {
 			for _, s := range stims {
 				for _, out := range []bool{false, true} {
-					for _, prev := range [][]string{nil, {"cease"}, {"fin", "cease"}} {
+					for _, prev := range [][]string{nil, {"cease"}, {"fin", "cease"}, {"in-fin"}} {
 						c := c09Case{State: st, Stim: s, Out: out, UpdLen: 23, Prev: prev}
 						if s == "notification" {
 							c.Notif = &wire.Notif{Code: 6, Sub: 2}
@@ -484,7 +444,7 @@ func TestC09(t *testing.T) {
 		}
 		if rapid.IntRange(0, 2).Draw(rt, "withprev") == 0 {
 			for i, k := 0, rapid.IntRange(1, 2).Draw(rt, "nprev"); i < k; i++ {
-				c.Prev = append(c.Prev, pick(rt, "prevend", "cease", "fin"))
+				c.Prev = append(c.Prev, pick(rt, "prevend", "cease", "fin", "in-cease", "in-fin"))
 			}
 		}
 		c.Hold0 = rapid.IntRange(0, 3).Draw(rt, "hold0") == 0
